@@ -310,6 +310,8 @@ def run(c, chk):
                         bad = (s, tok, e)
                     if e.kind == 'call' and e.name in ('cfg_setopt', 'cfg_addval', 'cfg_free_value', 'cfg_opt_setcomment', 'cfg_addopt',
                                                        'call_function', 'cfg_getopt'):
+                        if e.name == 'cfg_free_value' and e.args and e.args[0][0] == 'alloca':
+                            continue          # cleanup of a local aggregate on the error exit
                         bad = (s, tok, e)
     if bad:
         s, tok, e = bad
